@@ -101,6 +101,7 @@ pub fn c02(cx: &mut Ctx) {
         ("POST", "HTTP/1.0", "http://a.test", vec![], vec![("cookie", b"a=b")], false),
         ("PUT", "HTTP/1.1", "https://a.test:8443/x", vec![("host", b"h.test"), ("transfer-encoding", b"chunked")], vec![], false),
         ("GET", "HTTP/1.1", "http://a.test/d", vec![], vec![], true),
+        ("GET", "HTTP/1.1", "http://origin.test/d", vec![("x-first", b"1")], vec![("host", b"virtual.test"), ("x-last", b"2")], false),
         ("HEAD", "HTTP/1.1", "http://a.test/d", vec![("content-length", b"3")], vec![("z", b"\x80\xff")], true),
     ];
     for (m, v, u, orig, added, despite) in &shaped {
@@ -134,6 +135,15 @@ pub fn c02(cx: &mut Ctx) {
         for _ in 0..nadd {
             let name = *r.pick(&["x-c", "x-d", "cookie", "authorization", "accept", "x-c"]);
             cx.op(&format!("hdr {} {}", name, hx(&rand_value(&mut r))));
+        }
+        // Host / framing supplied by the caller on the flow rather than on the original request
+        let has = |k: &str| q.orig.iter().any(|(n, _)| n == k);
+        if !has("host") && r.chance(1, 4) {
+            let hv: &[u8] = if r.chance(1, 2) { b"virtual.test" } else { b"v.example:8080" };
+            cx.op(&format!("hdr host {}", hx(hv)));
+        }
+        if matches!(q.method, "POST" | "PUT" | "PATCH") && !has("content-length") && !has("transfer-encoding") && r.chance(1, 4) {
+            if r.chance(1, 2) { cx.op(&format!("hdr content-length {}", hx(b"9"))); } else { cx.op(&format!("hdr transfer-encoding {}", hx(b"chunked"))); }
         }
         let despite = !matches!(q.method, "POST" | "PUT" | "PATCH") && r.chance(1, 8);
         if despite {
